@@ -175,6 +175,46 @@ func (s *Sim) checkNodeIndexes(v *View, d *Dump) {
 			s.violate("C21", "unstaking-queue-dangling", "unstaking", fmt.Sprintf("height %d: unstaking queue lists %s, no such node record", h, addr))
 		}
 	}
+	// what the keeper's own reader of the per-chain index returns (the list sessions are drawn
+	// from) for every chain a node declares: exactly the staked nodes that declare it
+	if s.prop == "C21" {
+		chains := map[string]bool{}
+		for _, val := range v.Validators {
+			for _, c := range val.Chains {
+				chains[c] = true
+			}
+		}
+		if ctx, err := s.node.App.NewContext(h); err == nil {
+			k := s.node.App.VerifNodesKeeper()
+			for _, c := range sortedAddrs(chains) {
+				got, _ := k.GetValidatorsByChain(ctx, c)
+				want := map[string]bool{}
+				for addr, val := range v.Validators {
+					if val.Status == sdk.Staked && contains(val.Chains, c) {
+						want[addr] = true
+					}
+				}
+				bad := ""
+				seen := map[string]bool{}
+				for _, a := range got {
+					as := a.String()
+					if !want[as] && bad == "" {
+						bad = fmt.Sprintf("lists %s (%d bytes), which is no staked node declaring that chain", as, len(a))
+					}
+					seen[as] = true
+				}
+				for a := range want {
+					if !seen[a] && bad == "" {
+						bad = fmt.Sprintf("does not list staked node %s", a)
+					}
+				}
+				if bad != "" {
+					s.violate("C21", "chain-index-reader-vs-nodes", "by-chain", fmt.Sprintf("height %d: the nodes of chain %s as the keeper reads them (%d entries): the list %s", h, c, len(got), bad))
+				}
+				s.res.Probe("chain_index_read_through_keeper")
+			}
+		}
+	}
 }
 
 func contains(l []string, x string) bool {
